@@ -1,7 +1,9 @@
 package main
 
 import (
+	"bytes"
 	"fmt"
+	"github.com/johannesboyne/gofakes3"
 	"os"
 	"path/filepath"
 	"strconv"
@@ -169,6 +171,38 @@ func runC11(tier string, seed uint64) {
 						nontrivial(kind + "|vid|" + hdr + "|" + strconv.Itoa(vi))
 					}
 				}
+			}
+		}
+		// a ranged read held open (the handler streams after the backend call has returned) while other
+		// writes commit: the window read is the window asked for
+		if st.Backend != nil && st.Ext == nil {
+			data := c11Body(4097)
+			for _, rg := range []gofakes3.ObjectRangeRequest{{Start: 10, End: 15}, {Start: 3000, End: 4096}, {Start: 100, FromEnd: true, End: 100}} {
+				rq := rg
+				o, err := st.Backend.GetObject(bucket, "obj4097", &rq)
+				if err != nil || o == nil || o.Range == nil {
+					continue
+				}
+				for i := 0; i < 12; i++ {
+					do(h, Req{Method: "PUT", Path: fmt.Sprintf("/%s/filler-%d", bucket, i), Body: bytes.Repeat([]byte{byte(i)}, 40000)})
+				}
+				got, rerr := readAllGuarded(o.Contents)
+				o.Contents.Close()
+				want := data[o.Range.Start : o.Range.Start+o.Range.Length]
+				for i := 0; i < 12; i++ {
+					do(h, Req{Method: "DELETE", Path: fmt.Sprintf("/%s/filler-%d", bucket, i)})
+				}
+				hdr := fmt.Sprintf("bytes=%d-%d", o.Range.Start, o.Range.Start+o.Range.Length-1)
+				status, faulted := 200, "0"
+				if !bytes.Equal(got, want) {
+					stat("held-range-differs")
+				}
+				if rerr != nil {
+					faulted = "1" // reported like a panic of the handler: the body could not be delivered
+				}
+				emit("c11", kind, hs(hdr), hx(data), strconv.Itoa(status), hs(""), hs(fmt.Sprintf("bytes %d-%d/%d", o.Range.Start, o.Range.Start+o.Range.Length-1, len(data))), hs(strconv.Itoa(int(o.Range.Length))), hx(got), faulted)
+				stat("held-ranged-read")
+				nontrivial(kind + "|held-range|" + hdr)
 			}
 		}
 		// a ranged read as the first read of an object whose metadata record is gone (lost with its
